@@ -23,17 +23,49 @@ TRUSTED = ['Lean 4.33 kernel', 'axioms: propext, Classical.choice, Quot.sound', 
 
 GEN_PATH = os.path.join(common.LEAN, 'NumqiModel', 'Generated', 'QecCircuits.lean')
 
-# (function name, Lean constant, in quick theorems?)
-CODES = [
-    ('generate_code523', 'code523'),
-    ('generate_code422', 'code422'),
-    ('generate_code442', 'code442'),
-    ('generate_code642', 'code642'),
-    ('generate_code883', 'code883'),
-    ('generate_code8_64_2', 'code8_64_2'),
-    ('generate_code10_4_4', 'code10_4_4'),
-    ('generate_code11_2_5', 'code11_2_5'),
-]
+# The shipped codes and their advertised parameters ((n, K, d)), pinned here and in NumqiProps/C19.lean (`codeXXX_params`):
+# the live objects must report exactly these.  Generators are *discovered* (dir(numqi.qec) + AST of _qecc.py); one that is
+# not in this table is still translated and probed, and `generators_covered` in C19.lean then fails (uncovered generator).
+PINNED = {
+    'generate_code523': ('code523', (5, 2, 3)),
+    'generate_code422': ('code422', (4, 2, 2)),
+    'generate_code442': ('code442', (4, 4, 2)),
+    'generate_code642': ('code642', (6, 4, 2)),
+    'generate_code883': ('code883', (8, 8, 3)),
+    'generate_code8_64_2': ('code8_64_2', (8, 64, 2)),
+    'generate_code10_4_4': ('code10_4_4', (10, 4, 4)),
+    'generate_code11_2_5': ('code11_2_5', (11, 2, 5)),
+}
+# (function name, Lean constant) in translation order; extended by `discover_generators`
+CODES = [(f, l) for f, (l, _) in PINNED.items()]
+
+
+def get_generator(fname):
+    import numqi
+    return getattr(numqi.qec, fname, None) or getattr(numqi.qec._qecc, fname)
+
+
+def discover_generators():
+    """every public `generate_code*` of numqi.qec (except the helper generate_code_np) and every such function defined in _qecc.py"""
+    import numqi, re
+    names = {x for x in dir(numqi.qec) if x.startswith('generate_code') and x != 'generate_code_np' and callable(getattr(numqi.qec, x, None))}
+    try:
+        tree = ast.parse(open(os.path.join(common.REPO, 'python', 'numqi', 'qec', '_qecc.py')).read())
+        names |= {fn.name for fn in tree.body if isinstance(fn, ast.FunctionDef) and fn.name.startswith('generate_code')}
+    except Exception:
+        pass
+    for sub in ('_qecc',):
+        mod = getattr(numqi.qec, sub, None)
+        if mod is not None:
+            names |= {x for x in dir(mod) if x.startswith('generate_code') and x != 'generate_code_np' and callable(getattr(mod, x, None))}
+    out = []
+    for f in sorted(names):
+        if f in PINNED:
+            continue
+        l = 'code' + re.sub(r'[^0-9A-Za-z_]', '_', f[len('generate_code'):]).strip('_')
+        out.append((f, l if l != 'code' else 'code_' + f))
+    return sorted(names), out
+
 
 SQ = 1 / math.sqrt(2)
 REF1 = {
@@ -118,15 +150,19 @@ def load_codes():
         raise RuntimeError(f'numqi imported from {src}, expected {want}')
     listed = listed_strings_from_source()
     res = {}
+    discovered, extras = discover_generators()
+    CODES[:] = [(f, l) for f, (l, _) in PINNED.items()] + extras
+    res['__discovered__'] = discovered
     for fname, lname in CODES:
         try:
-            code = getattr(numqi.qec, fname)()
+            gen = get_generator(fname)
+            code = gen()
             enc = [classify_gate(g, idx) for g, idx in code['encode'].gate_index_list]
             stab = [[classify_gate(g, idx) for g, idx in c.gate_index_list] for c in code['stabilizer']]
             res[lname] = dict(fname=fname, lname=lname, name=str(code['name']), n=int(code['num_qubit']), K=int(code['num_logical_dim']),
                               d=int(code['distance']), encode=enc, stab=stab, listed=listed.get(fname), live=code)
             try:
-                res[lname]['second'] = fingerprint(getattr(numqi.qec, fname)())
+                res[lname]['second'] = fingerprint(gen())
             except Exception:
                 res[lname]['second'] = None
         except Exception as e:  # a constructor that raises: no data, the Lean obligations fail to build
@@ -178,6 +214,9 @@ def render_lean(codes):
         L.append('  listed := [' + ', '.join('[' + ', '.join(str(x) for x in l) + ']' for l in listed) + ']')
         L.append('  stabCircs := [' + ', '.join('[' + ', '.join(gate_lean(g) for g in gl) + ']' for gl in c['stab']) + ']')
         L.append('')
+    L.append('/-- every `generate_code*` function found in `numqi.qec` (introspection + AST of `_qecc.py`), sorted -/')
+    L.append('def discovered : List String := [' + ', '.join(f'"{f}"' for f in codes.get('__discovered__', [])) + ']')
+    L.append('')
     L.append('def allCodes : List (String × Code) := [' + ', '.join(f'("{n}", {n})' for n in names) + ']')
     L.append('')
     L.append('end Numqi.Qec.Generated')
@@ -203,11 +242,14 @@ def translate(ctx):
         with open(GEN_PATH, 'w') as fh:
             fh.write(txt)
         ctx.note('Generated/QecCircuits.lean rewritten (source data changed)')
-    ngates = sum(len(c['encode']) + sum(len(s) for s in c['stab']) for c in codes.values() if 'error' not in c)
-    nunknown = sum(1 for c in codes.values() if 'error' not in c for g in c['encode'] + [g for s in c['stab'] for g in s] if g[0] == 'unknown')
-    ctx.extra['translator'] = dict(codes=[c['name'] for c in codes.values() if 'error' not in c], gates=ngates, unknown_gates=nunknown,
-                                   constructor_errors=[c['fname'] for c in codes.values() if 'error' in c],
-                                   listed_missing=[c['fname'] for c in codes.values() if 'error' not in c and c['listed'] is None])
+    cds = [v for k, v in codes.items() if not k.startswith('__')]
+    ngates = sum(len(c['encode']) + sum(len(s) for s in c['stab']) for c in cds if 'error' not in c)
+    nunknown = sum(1 for c in cds if 'error' not in c for g in c['encode'] + [g for s in c['stab'] for g in s] if g[0] == 'unknown')
+    ctx.extra['translator'] = dict(codes=[c['name'] for c in cds if 'error' not in c], gates=ngates, unknown_gates=nunknown,
+                                   constructor_errors=[c['fname'] for c in cds if 'error' in c],
+                                   listed_missing=[c['fname'] for c in cds if 'error' not in c and c['listed'] is None],
+                                   discovered=codes.get('__discovered__'), not_in_pinned_table=[f for f in codes.get('__discovered__', []) if f not in PINNED],
+                                   pinned_missing=[f for f in PINNED if f not in codes.get('__discovered__', [])])
     if not ctx.quick():
         if THOROUGH_FILE not in THEOREM_FILES:
             THEOREM_FILES.append(THOROUGH_FILE)
@@ -1071,7 +1113,7 @@ def probe_history(ctx):
         c = codes.get(lname)
         if c is None or 'error' in c:
             continue
-        gen = getattr(numqi.qec, c['fname'])
+        gen = get_generator(c['fname'])
         steps = history_steps(c)
         # (a) each in-place API alone, (b) a seeded random sequence of three of them, (c) VarQEC used as the library intends
         plans = [[i] for i in range(len(steps))] + [rng.sample(range(len(steps)), 3)]
@@ -1104,7 +1146,7 @@ def probe_history(ctx):
         if c is None or 'error' in c or c['n'] > 6:
             continue
         try:
-            r = getattr(numqi.qec, c['fname'])()
+            r = get_generator(c['fname'])()
             want = numqi.qec.generate_code_np(r['encode'], c['K'])
             model = numqi.qec.VarQEC(r['encode'], c['K'], numqi.qec.make_error_list(c['n'], c['d']))
             loss = float(model())
@@ -1123,9 +1165,9 @@ def probe_history(ctx):
         hist = [f'ra = numqi.qec.{ca["fname"]}()', f'rb = numqi.qec.{cb["fname"]}()', 'ra["encode"].shift_qubit_index_(1)', 'rb["stabilizer"][0].shift_qubit_index_(2)',
                 f'fa = numqi.qec.{ca["fname"]}()', f'fb = numqi.qec.{cb["fname"]}()']
         try:
-            ra = getattr(numqi.qec, ca['fname'])(); rb = getattr(numqi.qec, cb['fname'])()
+            ra = get_generator(ca['fname'])(); rb = get_generator(cb['fname'])()
             ra['encode'].shift_qubit_index_(1); rb['stabilizer'][0].shift_qubit_index_(2)
-            fa = getattr(numqi.qec, ca['fname'])(); fb = getattr(numqi.qec, cb['fname'])()
+            fa = get_generator(ca['fname'])(); fb = get_generator(cb['fname'])()
             fails = [f'{ca["name"]}: ' + x for x in fresh_code_failures(ca, fa, False)] + [f'{cb["name"]}: ' + x for x in fresh_code_failures(cb, fb, False)]
         except Exception as e:
             fails = [f'history raised {type(e).__name__}: {e}']
@@ -1209,10 +1251,25 @@ def probe_weight_enumerator(ctx, c):
 def probe(ctx):
     codes = get_codes()
     quick = ctx.quick()
+    for f in PINNED:
+        if f not in codes.get('__discovered__', []):
+            ctx.fail(f'{PINNED[f][0]}:constructor', f'shipped generator numqi.qec.{f} no longer exists', dict(op='constructor', generator=f))
     for _, lname in CODES:
         c = codes.get(lname)
         if c is None or 'error' in c:
             ctx.fail(f'{lname}:constructor', f'{lname}: constructor failed: {(c or {}).get("error")}', dict(op='constructor', code=lname))
+            continue
+        pin = PINNED.get(c['fname'])
+        if pin is None:
+            ctx.note(f'generator {c["fname"]} ({c["name"]}) is not in the table of shipped codes: probed, but no Lean obligation covers it (generators_covered fails)')
+            ctx.count('uncovered-generator')
+        elif (c['n'], c['K'], c['d']) != pin[1] or c['name'].replace(' ', '') != '((%d,%d,%d))' % pin[1]:
+            ctx.fail(f'{lname}:params', f'{c["fname"]}() reports {c["name"]} = (n,K,d) = {(c["n"], c["K"], c["d"])}; the shipped code is {pin[1]}',
+                     dict(op='parameters', generator=c['fname'], reported=dict(name=c['name'], n=c['n'], K=c['K'], d=c['d']), shipped=list(pin[1])))
+        else:
+            ctx.probe_ok((lname, 'params'))
+        if c['n'] > 12:
+            ctx.note(f'{c["fname"]}: {c["n"]} qubits, brute-force probe skipped')
             continue
         probe_code(ctx, c, with_library_kl=(c['n'] <= 10 or not quick))
         if c['n'] <= 6 or (not quick and c['n'] <= 8 and c['K'] <= 8):
